@@ -158,6 +158,13 @@ class Ctx:
             cover_required=True, expect=None, bads=None, min_K=None, **kw):
         """BMC job.  chunk: number of frames per violation query (None: all frames in one query
         per bad signal)."""
+        if self.tier == "thorough":
+            # keep a thorough run bounded: frames up to the floor depth get at most 20 minutes per query, deeper frames are
+            # explored one by one with 10 minutes each and reported as the depth reached
+            timeout = min(timeout or 1200, 1200)
+            kw.setdefault("deep_timeout", 600)
+            if min_K is not None and (chunk is None or chunk > 2):
+                chunk = 2
         self.jobs[bench_name] = dict(K=K, chunk=chunk, timeout=timeout, induction=induction,
                                      diff_cycles=diff_cycles, cover_required=cover_required, seed=self.seed,
                                      only_bads=bads, min_K=min_K, **kw)
